@@ -38,6 +38,9 @@ func set(S []string, n, ty string, id int64, d string) Step {
 func del(S []string, n, ty string) Step {
 	return Step{Act: "deleteRecords", S: S, N: n, O: "nil", M: "nil", Ty: ty, D: "nil"}
 }
+func setPrice(S []string, p int64) Step { // p in price units (16 = 1 GAS)
+	return Step{Act: "setPrice", S: S, N: "nil", O: "nil", M: "nil", X: p, Ty: "nil", D: "nil"}
+}
 func via(st Step) Step { st.Via = true; return st }
 
 // traps: witnesses of rare branches and of the defects found
@@ -187,6 +190,33 @@ func traps() []*Scenario {
 			add(o2, "b.a.t", "A", "2.2.2.2"), renew(o2, "b.a.t", 1), updSOA(o3, "b.a.t", "m2", 3), del(o2, "b.a.t", "A"), setAdmin(o2, "b.a.t", "nil"),
 			setAdmin(o1, "b.a.t", "nil"), reg(s("o2"), "c.b.a.t", "o2", 4), tick(17), reg(s("o2"), "c.b.a.t", "o2", 4), reg(s("o1", "o2"), "c.b.a.t", "o2", 4),
 			xfer(o1, "c.b.a.t", "o3")}},
+		// extension X03, the registration price: setPrice by everybody but the committee; the committee sets 0 and
+		// every register / renew FAULTs (a taken name, a free name, a TLD renewal) while registerTLD and the other
+		// methods go on; the price is restored and the same calls succeed; out-of-range values (-1, max + 1, far
+		// out) next to the bounds 0 and max themselves; a price beyond the GAS of a transaction (max = 10 000 GAS);
+		// a price of one fraction; renew burns price * years
+		{CN: 3, Src: "trap:price", Steps: []Step{
+			reg(o1, "a.t", "o1", 12), setPrice(s("X"), 0), setPrice(s("o1"), 1), setPrice(s("M1"), 0), setPrice(s("ALPHA"), 2*defPrice),
+			setPrice(s("HALF"), 0), setPrice(s(), defPrice), via(setPrice(s("o1"), 0)), reg(o2, "b.t", "o2", 12),
+			setPrice(cmt, 0), reg(o3, "a.u", "o3", 8) /* TLD missing: FAULT anyway */, reg(o1, "a.t", "o1", 12) /* taken: FAULT, not false */,
+			reg(o2, "c.a.t", "o2", 8) /* not authorised */, reg(s("o1", "o2"), "c.a.t", "o2", 8) /* authorised: FAULT */,
+			reg(o3, "b.a.t", "o3", 8), renew(o1, "a.t", 1), renew(cmt, "t", 1), regTLD(cmt, "u", 20) /* not priced */,
+			add(o1, "a.t", "TXT", "x"), xfer(o2, "b.t", "o3"), setAdmin(s("o1", "o2"), "a.t", "o2"), updSOA(o1, "a.t", "m2", 3),
+			setPrice(s("X"), defPrice), reg(o3, "a.u", "o3", 8) /* still 0 */, setPrice(cmt, defPrice),
+			reg(o3, "a.u", "o3", 8), reg(o1, "a.t", "o1", 12) /* taken: false */, reg(s("o1", "o2"), "c.a.t", "o2", 8), renew(o1, "a.t", 1),
+			renew(cmt, "t", 1), setPrice(cmt, -1), setPrice(cmt, maxPrice+1), setPrice(cmt, -defPrice), setPrice(cmt, 4*maxPrice),
+			setPrice(s("X"), -1), setPrice(s("X"), maxPrice+1), reg(o3, "b.a.t", "o1", 8) /* refused: o1 missing */,
+			setPrice(cmt, maxPrice) /* the bound itself */, reg(s("o1", "o3"), "b.a.t", "o3", 8) /* more than a transaction can burn */,
+			renew(o3, "a.u", 1), regTLD(cmt, "u", 20) /* alive */, setPrice(cmt, 0) /* the other bound */, setPrice(cmt, 0),
+			via(setPrice(cmt, 1)) /* through a contract, with the committee's witness */, reg(s("o1", "o3"), "b.a.t", "o3", 8),
+			renew(o3, "a.u", 10), setPrice(cmt, 400*priceB) /* renew: 400 GAS a year */, renew(o3, "b.a.t", 1), tick(2), renew(o3, "b.a.t", 9),
+			renew(o3, "a.u", 1), setPrice(s("o1", "CMT"), defPrice), tick(40), reg(o2, "b.t", "o2", 4) /* expired long ago */}},
+		// the same with a one-key committee (committee = Alphabet account) and without ever restoring the price
+		{CN: 1, Src: "trap:pricezero", Steps: []Step{
+			setPrice(s("ALPHA"), 1), reg(o1, "a.t", "o1", 2), setPrice(s("M1"), 0) /* a single-key account, not the 1-of-1 committee */,
+			reg(o3, "a.t", "o3", 2) /* taken: false */, setPrice(s("ALPHA"), 0), reg(o2, "b.t", "o2", 8), setPrice(s("X"), defPrice), renew(o1, "a.t", 1), tick(8), reg(o2, "a.t", "o2", 2) /* expired, still refused */,
+			renew(cmt, "t", 10), regTLD(cmt, "u", 8), reg(o1, "a.u", "o1", 2), add(o1, "a.t", "TXT", "x"), setPrice(cmt, maxPrice+1),
+			setPrice(cmt, -1), reg(s("o1", "CMT"), "a.t", "CMT", 2)}},
 	}
 }
 
@@ -196,7 +226,10 @@ func randScenarios(seed int64, n int) []*Scenario {
 	r := rand.New(rand.NewSource(seed*104729 + 7))
 	var out []*Scenario
 	for i := 0; i < n; i++ {
-		out = append(out, randScenario(r))
+		// the price steps (extension X03) are drawn from a generator of their own, so that the scenarios
+		// without price steps are the ones the walker produced before the extension
+		rp := rand.New(rand.NewSource(seed*7919 + 1000003*int64(i) + 13))
+		out = append(out, randScenario(r, rp))
 	}
 	return out
 }
@@ -210,10 +243,13 @@ type nst struct {
 }
 
 type gmodel struct {
-	now  int64
-	reg  map[string]*nst
-	recs map[string][]string // token|name|type -> data
+	now   int64
+	reg   map[string]*nst
+	recs  map[string][]string // token|name|type -> data
+	price int64               // registration price (price units)
 }
+
+func burnOK(g int64) bool { return g > 0 && g <= gasCap }
 
 func parOf(n string) string {
 	for i := 0; i < len(n); i++ {
@@ -283,8 +319,13 @@ func (m *gmodel) apply(st Step) {
 		if W["CMT"] && levelOf(n) == 1 && !m.alive(n) {
 			m.reg[n] = &nst{"nil", "nil", "nil", "nil", m.now + st.X}
 		}
+	case "setPrice":
+		if W["CMT"] && st.X >= 0 && st.X <= maxPrice {
+			m.price = st.X
+		}
 	case "register":
-		if levelOf(n) < 2 || !m.ancOK(n) || (levelOf(n) > 2 && !adminOK(m.reg[parOf(n)], W)) || m.conflict(n) || !W[st.O] || m.alive(n) {
+		if levelOf(n) < 2 || !m.ancOK(n) || (levelOf(n) > 2 && !adminOK(m.reg[parOf(n)], W)) || m.conflict(n) || !W[st.O] || m.alive(n) ||
+			!burnOK(m.price) {
 			return
 		}
 		y := &nst{st.O, "nil", "nil", "nil", m.now + st.X}
@@ -304,7 +345,7 @@ func (m *gmodel) apply(st Step) {
 			x.owner, x.admin = st.O, "nil"
 		}
 	case "renew":
-		if x != nil && st.X >= 1 && st.X <= 10 && m.alive(n) && m.ancOK(n) && adminOK(x, W) &&
+		if x != nil && st.X >= 1 && st.X <= 10 && burnOK(m.price*st.X) && m.alive(n) && m.ancOK(n) && adminOK(x, W) &&
 			(levelOf(n) == 1 || x.exp+st.X*year <= m.now+10*year) {
 			x.exp += st.X * year
 		}
@@ -414,7 +455,7 @@ func (m *gmodel) authSets(st Step) [][]string {
 		return out
 	}
 	switch st.Act {
-	case "registerTLD":
+	case "registerTLD", "setPrice":
 		return [][]string{{"CMT"}}
 	case "register":
 		if levelOf(st.N) == 2 {
@@ -495,10 +536,15 @@ func (m *gmodel) sign(r *rand.Rand, st Step) Step {
 // randScenario: in two scenarios out of three the walk starts from a tower a.t / b.a.t / c.b.a.t /
 // d.c.b.a.t (or a shorter one) in which every level has a different owner and a different admin; then
 // every step picks a method and a name and draws its signers with sign.
-func randScenario(r *rand.Rand) *Scenario {
+//
+// Extension X03: one scenario out of three contains setPrice steps, drawn with rp: by the committee to a
+// usable price, to 0 or to a price no transaction can burn (followed by one or two calls that would succeed
+// at a usable price, and mostly by the restoration of a usable price one to three steps later, so that the
+// rest of the walk stays productive), out of range, and by everybody else.
+func randScenario(r, rp *rand.Rand) *Scenario {
 	cns := []int{1, 3, 4, 7}
 	sc := &Scenario{CN: cns[r.Intn(len(cns))], Src: "rand"}
-	m := &gmodel{now: 1, reg: map[string]*nst{"t": {"nil", "nil", "nil", "nil", 10 * year}}, recs: map[string][]string{}}
+	m := &gmodel{now: 1, reg: map[string]*nst{"t": {"nil", "nil", "nil", "nil", 10 * year}}, recs: map[string][]string{}, price: defPrice}
 	emit := func(st Step) {
 		sc.Steps = append(sc.Steps, st)
 		m.apply(st)
@@ -734,8 +780,85 @@ func randScenario(r *rand.Rand) *Scenario {
 		}
 		return int64(1 + r.Intn(8))
 	}
+	// ---- price steps ----
+	priceMode := rp.Intn(3) == 0
+	restoreIn := -1 // steps until a usable price is restored (-1: nothing pending)
+	usable := []int64{defPrice, defPrice, 1, 2, 2 * defPrice, 100 * priceB, 4000 * priceB}
+	others := [][]string{{"X"}, {"M1"}, {"ALPHA"}, {"HALF"}, {"o1"}, {"o2", "o3"}, {}, {"X", "M1"}}
+	byCmt := func(p int64) Step {
+		st := setPrice(s("CMT"), p)
+		switch rp.Intn(8) {
+		case 0:
+			st.S = s("CMT", "o1")
+		case 1:
+			st.Via = true
+		}
+		return st
+	}
+	probe := func() { // a call that succeeds if (and only if) the price is usable
+		var free, held []string
+		for _, n := range ntNames {
+			if levelOf(n) == 2 && m.alive(parOf(n)) && !m.alive(n) && !m.conflict(n) {
+				free = append(free, n)
+			}
+			if m.alive(n) && m.ancOK(n) && m.reg[n].owner != "kc" {
+				held = append(held, n)
+			}
+		}
+		switch k := rp.Intn(4); {
+		case k < 2 && len(free) > 0:
+			o := []string{"o1", "o2", "o3", "CMT"}[rp.Intn(4)]
+			emit(reg(s(o), free[rp.Intn(len(free))], o, int64(2+rp.Intn(6))))
+		case k < 3 && len(held) > 0:
+			n := held[rp.Intn(len(held))]
+			emit(reg(s(m.reg[n].owner), n, m.reg[n].owner, 4)) // a taken name: false, or FAULT when nothing can be burnt
+		case len(held) > 0:
+			n := held[rp.Intn(len(held))]
+			emit(renew(s(m.reg[n].owner), n, int64(1+rp.Intn(2))))
+		default:
+			emit(renew(s("CMT"), "t", 1))
+		}
+	}
+	priceStep := func() {
+		switch k := rp.Intn(20); {
+		case k < 7: // nothing can be registered: 0 mostly, or more than a transaction can burn
+			p := []int64{0, 0, 0, maxPrice, gasCap + priceB}[rp.Intn(5)]
+			emit(byCmt(p))
+			probe()
+			if rp.Intn(2) == 0 {
+				probe()
+			}
+			if rp.Intn(8) > 0 {
+				restoreIn = rp.Intn(3)
+			}
+		case k < 12: // not the committee
+			st := setPrice(others[rp.Intn(len(others))], []int64{0, 0, 1, defPrice, maxPrice, -1, maxPrice + 1}[rp.Intn(7)])
+			st.Via = rp.Intn(6) == 0
+			emit(st)
+		case k < 16: // out of range
+			emit(byCmt([]int64{-1, -1, maxPrice + 1, maxPrice + 1, -priceB, -defPrice, 4 * maxPrice, maxPrice + priceB}[rp.Intn(8)]))
+		default:
+			emit(byCmt(usable[rp.Intn(len(usable))]))
+			if rp.Intn(3) == 0 {
+				probe()
+			}
+		}
+	}
 	nsteps := 14 + r.Intn(26)
 	for i := 0; i < nsteps; i++ {
+		if priceMode {
+			if restoreIn == 0 {
+				emit(byCmt(usable[rp.Intn(len(usable))]))
+				if rp.Intn(2) == 0 {
+					probe()
+				}
+			}
+			if restoreIn >= 0 {
+				restoreIn--
+			} else if rp.Intn(7) == 0 {
+				priceStep()
+			}
+		}
 		if (recMode && r.Intn(3) > 0) || (!recMode && r.Intn(8) == 0) {
 			recordStep()
 			continue
